@@ -259,11 +259,13 @@ impl World {
             match self.poll_conn(i) {
                 PollOut::Ready | PollOut::Panicked => {
                     self.drain(i);
+                    self.spin();
                     return Ok(());
                 }
                 PollOut::Pending => {
                     if verif::at_gate(i) {
                         self.drain(i);
+                        self.spin();
                         return Ok(());
                     }
                 }
@@ -274,6 +276,17 @@ impl World {
             "conn {} stuck under directive {:?} (event-source model mismatch?)",
             i, d
         )))
+    }
+
+    /// Let tasks the server spawned (its ping/pong timers) run without letting
+    /// time pass - in production they are scheduled as soon as they are spawned.
+    pub fn spin(&mut self) {
+        set_quiet_panics(true);
+        self.rt.block_on(async {
+            tokio::task::yield_now().await;
+            tokio::task::yield_now().await;
+        });
+        set_quiet_panics(false);
     }
 
     /// Write raw bytes to the client side of connection `i` (no processing yet).
